@@ -2,10 +2,11 @@
 
    Proved for BFS and DFS completion from any diagram reachable by plain operations (bfs_complete /
    dfs_complete need only the invariants that run_invariants establishes), for minimal-space expansion
-   (expand_min_exact / expand_min_complete) and for completion by skip_remaining.  PARTIAL: for attractor-seed,
-   block and source-SCC expansion the statement is decided by the correspondence run (models ASeeds.v /
-   Blocks.v replayed against the code) plus the comparison of minimal_trap_spaces() with Brute.min_traps_b,
-   whose exactness is min_traps_b_spec.
+   (expand_min_exact / expand_min_complete), for completion by skip_remaining, for source-block expansion from a fresh
+   diagram with every option combination and ANY tape (expand_block_MinFound: independence of minimal source blocks,
+   BlockMath.min_trap_in_block / same_child_same_block) and for attractor-seed expansion from any plainly reached diagram
+   (expand_aseeds_MinFound).  PARTIAL: the source-SCC strategy is decided by the comparison of minimal_trap_spaces()
+   with Brute.min_traps_b (exact by min_traps_b_spec) only.
 
    This file contains only restatements closed by `exact` (statements produced by Coq's own
    `Check` of the library lemma) plus non-vacuity Examples, each followed by Print Assumptions. *)
@@ -13,7 +14,8 @@ From Coq Require Import List Bool Arith NArith Lia Relations Permutation.
 Import ListNotations.
 From BB Require Import BN Brute SpaceFacts TrapFacts PercolateFacts AttractorFacts Diagram Invariants Checks Filter
   Strict PetriNet Control Meta FilterFacts PetriNetFacts TrappistFacts DiagramStruct DiagramSem1 DiagramCache
-  DiagramDepth DiagramComplete Termination ControlFacts MetaFacts Candidates StrictFacts MinExpandFacts CandidatesFacts SymbolicTest SymbolicTestFacts Signed ReductionFacts ControlFacts2 Main Blocks BlocksFacts ObsFacts OwnerFacts CandidatesTerm.
+  DiagramDepth DiagramComplete Termination ControlFacts MetaFacts Candidates StrictFacts MinExpandFacts CandidatesFacts SymbolicTest SymbolicTestFacts Signed ReductionFacts ControlFacts2 Main Blocks BlocksFacts ObsFacts OwnerFacts CandidatesTerm
+  PartialOwner BlockMath BlockComplete ASeeds ASeedsFacts LogChecks SkipRule SkipRuleFacts Names NamesFacts Perm PermFacts.
 
 Theorem C03_bfs_complete : forall (fuel : nat) (N : net) (cfg : config) (d d' : sd), 1 <= max_motifs cfg -> SWF N d -> NoStubEdges d -> EdgeStrict d -> Rooted d -> expand_bfs fuel N cfg d None None None = (d', RBool true) -> AllExpanded d'.
 Proof. exact bfs_complete. Qed.
@@ -64,12 +66,47 @@ Proof. exact minimal_nodes_unique. Qed.
 Theorem C03_block_expansion_leaves_minimal : forall (fuel : nat) (N : net) (cfg : config) (d : sd) (maa opt : bool) (sz : option nat) (tape : list bool), 1 <= max_motifs cfg -> SWF N d -> TrapNodes N d -> NoStubEdges d -> LeafOK N d -> LeafOK N (fst (expand_block fuel N cfg d maa opt sz tape)).
 Proof. exact expand_block_LeafOK_strong. Qed.
 
+(* the block of a motif is closed under regulators and contains the motif's variables *)
+Theorem C03_block_closed : forall (N : net) (S : space) (m : list (option bool)), trap_space N S -> length m = nvars N -> subspace m S = true -> closed_in N S (block_of N S (reduce_by m S)) /\ fixes_within m S (block_of N S (reduce_by m S)).
+Proof. exact block_of_closed. Qed.
+
+(* trap spaces project onto a regulator-closed block *)
+Theorem C03_trap_spaces_project : forall (N : net) (S M : space) (B : list nat), trap_space N S -> trap_space N M -> subspace M S = true -> closed_in N S B -> trap_space N (proj_space M S B) /\ subspace M (proj_space M S B) = true /\ subspace (proj_space M S B) S = true /\ fixes_within (proj_space M S B) S B.
+Proof. exact proj_trap. Qed.
+
+(* independence of minimal source blocks: every minimal trap space of the node lies below a motif of every closed block that carries a motif *)
+Theorem C03_min_trap_in_block : forall (N : net) (S : space) (srcs B : list nat) (m0 M : space), trap_space N S -> closed_in N S B -> In m0 (max_traps_b N S srcs) -> fixes_within m0 S B -> min_trap N M -> subspace M S = true -> fixes_all M srcs = true -> (forall v : nat, In v srcs -> nth v S None = None -> In v B) -> exists T : space, In T (max_traps_b N S srcs) /\ subspace M T = true /\ fixes_within T S B.
+Proof. exact min_trap_in_block. Qed.
+
+(* the block may be computed from the FIRST motif of a successor *)
+Theorem C03_same_child_same_block : forall (N : net) (S : space) (srcs B : list nat) (T m1 : space), trap_space N S -> percolate_b N S = S -> closed_in N S B -> In T (max_traps_b N S srcs) -> In m1 (max_traps_b N S srcs) -> (forall v : nat, In v srcs -> nth v S None = None -> In v B) -> fixes_within T S B -> percolate_b N m1 = percolate_b N T -> fixes_within m1 S B.
+Proof. exact same_child_same_block. Qed.
+
+(* no minimal trap space is missed by block expansion (any options, any tape) *)
+Theorem C03_block_expansion_complete : forall (fuel : nat) (N : net) (cfg : config) (d' : sd) (maa opt : bool) (sz : option nat) (tape : list bool), 1 <= max_motifs cfg -> expand_block fuel N cfg (init N) maa opt sz tape = (d', RBool true) -> MinFound N d'.
+Proof. exact expand_block_MinFound. Qed.
+
+Theorem C03_block_expansion_shapes : forall (fuel : nat) (N : net) (cfg : config) (d : sd) (maa opt : bool) (sz : option nat) (tape : list bool), 1 <= max_motifs cfg -> SWF N d -> TrapNodes N d -> NoStubEdges d -> CanonOrFF N d -> CanonOrFF N (fst (expand_block fuel N cfg d maa opt sz tape)).
+Proof. exact expand_block_CanonOrFF. Qed.
+
+Theorem C03_aseeds_expansion_complete : forall (fuel : nat) (N : net) (cfg : config) (d d' : sd) (sz : option nat) (min_tape : list space) (tape : list (list nat)), 1 <= max_motifs cfg -> PlainInv N d -> expand_aseeds fuel N cfg d sz min_tape tape = (d', RBool true) -> nfvs_log_ok N (expand_aseeds_log fuel N cfg d sz min_tape tape) -> MinFound N d'.
+Proof. exact expand_aseeds_MinFound. Qed.
+
+Theorem C03_aseeds_expansion_leaves_minimal : forall (fuel : nat) (N : net) (cfg : config) (d : sd) (sz : option nat) (min_tape : list space) (tape : list (list nat)), 1 <= max_motifs cfg -> PlainInv N d -> LeafOK N d -> LeafOK N (fst (expand_aseeds fuel N cfg d sz min_tape tape)).
+Proof. exact expand_aseeds_LeafOK. Qed.
+
+Theorem C03_work_list_descent : forall (N : net) (d : sd), SWF N d -> TrapNodes N d -> EdgeStrict d -> n_space (get d 0) = percolate_b N (top_space (nvars N)) -> n_exp (get d 0) = true -> min_good N d [] -> MinFound N d.
+Proof. exact min_good_found. Qed.
+
 (* non-vacuity: two bistable switches; x0'=x1, x1'=x0, x2'=x3, x3'=x2 *)
 Definition ex_sw : net := [fun s => nth 1 s false; fun s => nth 0 s false; fun s => nth 3 s false; fun s => nth 2 s false].
 Definition ex_cfg : config := {| max_motifs := 1000 |}.
 
 Example C03_example : length (min_traps_b ex_sw (top_space 4)) = 4.
 Proof. vm_compute. reflexivity. Qed.
+Example C03_example_block : length (minimal_ids (fst (expand_block 100 ex_sw ex_cfg (init ex_sw) false true None []))) = 4 /\
+  size (fst (expand_block 100 ex_sw ex_cfg (init ex_sw) false true None [])) = 9.
+Proof. vm_compute. split; reflexivity. Qed.
 
 Print Assumptions C03_bfs_complete.
 Print Assumptions C03_dfs_complete.
@@ -85,3 +122,12 @@ Print Assumptions C03_skip_remaining_exact.
 Print Assumptions C03_leaves_always_minimal.
 Print Assumptions C03_no_duplicates.
 Print Assumptions C03_block_expansion_leaves_minimal.
+Print Assumptions C03_block_closed.
+Print Assumptions C03_trap_spaces_project.
+Print Assumptions C03_min_trap_in_block.
+Print Assumptions C03_same_child_same_block.
+Print Assumptions C03_block_expansion_complete.
+Print Assumptions C03_block_expansion_shapes.
+Print Assumptions C03_aseeds_expansion_complete.
+Print Assumptions C03_aseeds_expansion_leaves_minimal.
+Print Assumptions C03_work_list_descent.
